@@ -587,6 +587,9 @@ func checkOptions(options Options) error {
 	if options.SyncStrategy == Threshold && options.BytesPerSync == 0 {
 		return errors.New("SyncStrategy should not never be 0")
 	}
+	if options.ShardNum <= 0 {
+		return errors.New("index shard number must be greater than 0")
+	}
 	return nil
 }
 
